@@ -343,9 +343,12 @@ def sweep(tier):
         for v in sorted(vals):
             if v < 0 and not signed:
                 continue
-            for pad in (0, 1, 2, 9):
+            for pad in (0, 1, 2, 9) + ((21, 22, 23, 31, 32, 33, 55, 63, 64, 65, 127, 128, 255, 256, 1000) if v in (0, 1, -1, 127, 128, -64, -65, (1 << 63) - 1, 1 << 64) else ()):
+                # an encoding may carry any number of redundant groups: its length is unbounded although the value is small
                 enc = leb.sleb(v, pad) if signed else leb.uleb(v, pad)
                 cases.append({'k': 'leb', 'signed': signed, 'data': enc + b'\xff\x00'})
+                if pad > 9:
+                    continue
                 cases.append({'k': 'leb', 'signed': signed, 'data': b'\x80' + enc, 'pos': 1})
                 for cut in range(len(enc)):
                     cases.append({'k': 'leb', 'signed': signed, 'data': enc[:cut]})
@@ -394,7 +397,7 @@ def sweep(tier):
 def strategy(tier):
     big = st.one_of(st.integers(0, (1 << 70)), st.integers(0, 1 << 20),
                     st.sampled_from([(1 << k) + d for k in range(0, 71) for d in (-1, 0, 1) if (1 << k) + d >= 0]))
-    pad = st.sampled_from([0, 0, 0, 1, 2, 3, 5, 9])
+    pad = st.sampled_from([0, 0, 0, 1, 2, 3, 5, 9, 9, 25, 40, 70, 300])
     suffix = st.binary(max_size=4)
 
     @st.composite
@@ -404,7 +407,6 @@ def strategy(tier):
         if signed and draw(st.booleans()):
             v = -v
         enc = leb.sleb(v, draw(pad)) if signed else leb.uleb(v, draw(pad))
-        enc = enc[:20] if len(enc) > 20 and enc[19] < 0x80 else enc
         mode = draw(st.sampled_from(['full', 'full', 'full', 'cut', 'prefix']))
         if mode == 'cut':
             enc = enc[:draw(st.integers(0, len(enc) - 1))]
